@@ -111,6 +111,63 @@ def thin_last_block(run, tmp):
                 break
 
 
+def mask_partial_leg(run, tmp):
+    """
+    `mask_partial=True` with interpolating up-sampling, several blocks: the partial mask is applied to the up-sampled parameters,
+    so a block gives the pixels of its output window the values of the single-block run (bilinear: everywhere; cubic spline: the
+    mask everywhere).  Aligned integer ratios (2:1, 4:1): no source pixel centre lies on a reference pixel edge (the ties of finding
+    D8 cannot occur), positive data under the gain model (no degenerate window, finding D16).
+    """
+    from homonim.errors import BlockSizeError
+    u = 8
+    for k, (ratio, ups, kern) in enumerate(((2, 'bilinear', (3, 3)), (4, 'bilinear', (3, 5)), (2, 'cubic_spline', (5, 3)), (2, 'bilinear', (1, 1)))):
+        ref = rasters.Grid(u * 5000 + 64 * u * k, u * 9000, ratio * u, ratio * u, 30, 26)
+        src = rasters.Grid(ref.x0 + 2 * ratio * u, ref.ytop - 3 * ratio * u, u, u, 24 * ratio, 19 * ratio)
+        rng = run.rng(f'maskpartial{k}')
+        s = np.array([[[rng.randint(1, 12) for _ in range(src.w)] for _ in range(src.h)]], float)
+        r = np.array([[[rng.randint(1, 12) for _ in range(ref.w)] for _ in range(ref.h)]], float)
+        sv = np.ones((src.h, src.w), bool)
+        for _ in range(4):
+            sv[rng.randrange(src.h), rng.randrange(src.w)] = False
+        pair = fusion.write_pair(tmp, f'c05mp{k}', src, ref, s, r, sv, None)
+        kw = dict(model='gain', kernel_shape=kern, proc_crs='auto', param=True, threads=1,
+                  model_config=dict(upsampling=ups, r2_inpaint_thresh=None, mask_partial=True))
+        ph, pw_ = fusion.proc_window_shape(src, ref, True)
+        try:
+            base = fusion.run_fuse(pair.src_path, pair.ref_path, tmp / 'c05mp_1.tif', max_block_mem=100, **kw)
+        except Exception as ex:
+            run.fail(dict(i=860_000 + 10 * k), f'fusion raised {type(ex).__name__}: {ex}', signature=dict(kind='raises'))
+            continue
+        for hv in (1, 2, 3):
+            case = dict(i=860_000 + 10 * k + hv, op='mask_partial with interpolating up-sampling', ratio=ratio, upsampling=ups, kernel=kern, halvings=hv)
+            try:
+                res = fusion.run_fuse(pair.src_path, pair.ref_path, tmp / 'c05mp_n.tif',
+                                      max_block_mem=fusion.block_mem_for(hv, ph, pw_, src.px, ref.px, True), **kw)
+            except BlockSizeError:
+                continue
+            except Exception as ex:
+                run.fail(case, f'fusion raised {type(ex).__name__}: {ex}', signature=dict(kind='raises'))
+                continue
+            run.evaluations += 1
+            run.hist['mask_partial + interpolating up-sampling cases'] += 1
+            run.nontrivial.add(('mask-partial', k, hv))
+            if not np.array_equal(res.corr_mask, base.corr_mask) or not np.array_equal(res.param_masks, base.param_masks):
+                run.fail(case, f'validity under mask_partial depends on the block partition ({2 ** hv} blocks)',
+                         signature=dict(kind='corr-mask', mask_partial=True, downsampling='average', proc='ref'))
+                continue
+            if not fusion.bytes_equal(res.param[:2], base.param[:2]):
+                run.fail(case, f'parameter image under mask_partial depends on the block partition ({2 ** hv} blocks)',
+                         signature=dict(kind='param-partition', mask_partial=True, downsampling='average', proc='ref'))
+                continue
+            if ups == 'bilinear':
+                fin = np.isfinite(res.corr) & np.isfinite(base.corr)
+                d = np.argwhere(fin & (res.corr != base.corr))
+                if len(d):
+                    run.fail(case, f'corrected image under mask_partial depends on the block partition ({2 ** hv} blocks, bilinear up-sampling): '
+                             f'{len(d)} pixels differ, e.g. band/row/col {d[0].tolist()}: {float(res.corr[tuple(d[0])])} vs {float(base.corr[tuple(d[0])])}',
+                             signature=dict(kind='corr-partition', mask_partial=True, downsampling='average', proc='ref'))
+
+
 def run(run: common.Run):
     from homonim.errors import BlockSizeError
     n = 24 if run.quick() else 400
@@ -246,6 +303,8 @@ def run(run: common.Run):
                          signature=dict(kind='overlap-too-small'))
     run.compare_lines(cases, lines, impls)
     thin_last_block(run, tmp)
+    if run.only is None:
+        mask_partial_leg(run, tmp)
     # whole-image exact model against multi-block runs: the partitioned run must equal the single-function model
     import fuseimg
     fuseimg.whole_image_leg(run, 6 if run.quick() else 60, blocks=(2, 3), base=800_000)
